@@ -75,8 +75,12 @@ func StandardFinish(w *harness.World) {
 }
 
 func verdictViol(res harness.ExecResult, hist []string) []explore.Viol {
+	var notes []explore.Viol
+	for _, n := range harness.Notes(res) {
+		notes = append(notes, explore.Viol{Oracle: "lockset", Sig: "lockset:" + strings.SplitN(n, " is accessed", 2)[0], Msg: n + " after [" + strings.Join(hist, " ") + "]"})
+	}
 	if res.Verdict == "" {
-		return nil
+		return notes
 	}
 	msg := res.Msg
 	sig := res.Verdict + ":" + normalise(msg)
@@ -84,7 +88,7 @@ func verdictViol(res harness.ExecResult, hist []string) []explore.Viol {
 	if res.Stack != "" {
 		full += "\n" + trimStack(res.Stack)
 	}
-	return []explore.Viol{{Oracle: strings.ToLower(res.Verdict), Sig: sig, Msg: full}}
+	return append(notes, explore.Viol{Oracle: strings.ToLower(res.Verdict), Sig: sig, Msg: full})
 }
 
 // normalise strips addresses and numbers that vary between runs from a panic
